@@ -24,10 +24,11 @@ BIG = 100000.0
 class Script:
     """The scripted sender: well-formed PDUs of one transaction, as bytes."""
 
-    def __init__(self, w, t, idw=None, seq_off=0, dst=None):
+    def __init__(self, w, t, idw=None, seq_off=0, dst=None, large=False):
         c = w.cfg
         self.w = w
         syn = Synth(w, perturb=0)
+        syn.large = large
         if idw is not None:
             syn.idw = idw
         if dst is not None:
@@ -107,7 +108,13 @@ def grid(t, attach=None, force=None) -> Ctx:
             w.monitors.append(m)
     ack_seen = AckSeen()
     w.monitors.append(ack_seen)
-    sc = Script(w, t)
+    # a quarter of the scripted senders use the large-file PDU format (legal for any file size) when the maximum
+    # packet length still holds a NAK PDU with one 16-byte segment request
+    crcb = 2 if cfg.crc else 0
+    large = t.choose(4, "large file format") == 3 and cfg.mpl >= cfg.hdr_len + 1 + 16 + 16 + crcb
+    sc = Script(w, t, large=large)
+    if large:
+        w.probe("grid_large_file_format")
     ctx.info["script"] = sc
     b = w.b
     stats = {"delivered": 0, "lost": 0, "dup": 0, "rounds": 0, "timer_polls": 0}
